@@ -446,6 +446,10 @@ class Sym(Interp):
             elt = T(self.ev(n.elt, e, ctx))
         return ("comp", kind, elt, tuple(gens))
 
+    def literal_string(self, v):
+        t = T(v)
+        return t[1] if is_const(t) and isinstance(t[1], str) else None
+
     def h_star_element(self, v, n, env, ctx):
         return ("*", T(v))
 
@@ -651,7 +655,7 @@ class Sym(Interp):
                               kwargs={k: T(v) for k, v in kwargs.items()}, callkind="repo", result=t, rawargs=list(args))
                 f.named = dict(named)
                 return t
-            if init is None:
+            if init is None and not (fv.name.startswith("_") and self._namedtuple_fields(fv) is not None):
                 t = ("new", fv.module.name + "." + fv.name, self.argt(args), self.kwt(kwargs))
                 return t
         return super().apply(fv, args, kwargs, n, env, ctx)
